@@ -191,8 +191,26 @@ void explore15(Options const& o, std::vector<Shim*> const& shims, std::vector<Sh
   bool th = o.tier == "thorough";
   std::vector<i64> S;
   for( i64 x : merge_sets(th ? S_set(10,8) : S_set(8,4), S2_set(th ? 3 : 2)) ) if( C15::in_domain(x) ) S.push_back(x);
+  // floor and ceil act on two fields: the product of shape-bounded integral parts I (few significant bits counted from zero AND from the
+  // limit 2^47: m*2^e + d and 2^47 - m*2^e + d, both signs) with shape-bounded fractions f (every single bit, every run of ones from the
+  // bottom and from the top, +-1 of each). A rounding that loses one fraction bit, or goes wrong only next to the limit, needs both at once
+  size_t n_field = 0;
+  {
+  std::vector<i64> I, F;
+  int wI = th ? 6 : 4;
+  for( i64 m = 0; m < (1ll << wI); ++m ) for( int e = 0; e <= 46; ++e ) for( i64 d = -2; d <= 2; ++d )
+    { i128 v = (static_cast<i128>(m) << e); if( v > (static_cast<i128>(1) << 47) ) continue;
+      for( i128 b : { v, (static_cast<i128>(1) << 47) - v } ) for( int sg = -1; sg <= 1; sg += 2 ) { i128 i = sg * b + d; if( i > -(static_cast<i128>(1) << 47) && i < (static_cast<i128>(1) << 47) ) I.push_back(static_cast<i64>(i)); } }
+  std::sort(I.begin(), I.end()); I.erase(std::unique(I.begin(), I.end()), I.end());
+  for( int j = 0; j <= 16; ++j ) for( i64 d = -1; d <= 1; ++d ) for( i64 b : { 1ll << j, (1ll << j) - 1, 65536 - (1ll << j) } ) { i64 f = b + d; if( f >= 0 && f < 65536 ) F.push_back(f); }
+  std::sort(F.begin(), F.end()); F.erase(std::unique(F.begin(), F.end()), F.end());
+  std::vector<i64> P; P.reserve(I.size() * F.size());
+  for( i64 i : I ) for( i64 f : F ) { i128 x = static_cast<i128>(i) * 65536 + f; if( x > INT64_MIN && x < INT64_MAX && C15::in_domain(static_cast<i64>(x)) ) P.push_back(static_cast<i64>(x)); }
+  n_field = P.size();
+  S = merge_sets(S, P);
+  }
   i64 D = th ? (1ll<<26) : (1ll<<20);
-  rec.note("alphabet", "S |S|=" + std::to_string(S.size()) + " restricted to |x| < 2^47-1, u every raw in [-" + to_s(D) + "," + to_s(D) + "]");
+  rec.note("alphabet", "S u (integral parts x fractions: " + std::to_string(n_field) + " field products), |S|=" + std::to_string(S.size()) + " restricted to |x| < 2^47-1, u every raw in [-" + to_s(D) + "," + to_s(D) + "]");
   C15 c(rec);
   u64 integers = 0; for( i64 x : S ) if( x % 65536 == 0 ) ++integers;
   rec.count("branch.integer_valued_arguments", integers * shims.size() + static_cast<u64>(2*(D/65536)+1) * shims.size());
